@@ -270,6 +270,22 @@ PROPS["C19"] = dict(
                  "no file below the destination shares an inode with a file outside it before extraction"],
 )
 
+PROPS["C02"] = dict(
+    n_quick=20000, n_thorough=2000000, shards=8, coq_dirs=["C02", "C01", "C03", "C04"],
+    rule="cases: (40%) values hi:lo with each word from {0, 2^64-1, 2^63, 2^63-1, 0..2, 2^64-1-(0..2), random >> 0..63}: String and "
+         "AsBigInt of both types, round trips through FromString / NoCheck / BigInt / Text / encoding/json (struct and slice) / YAML hooks / "
+         "fmt.Sscan, ten fmt verbs against math/big, AsFloat64 as an exact integer, all narrowing predicates and conversions; (20%) "
+         "big.Int of 0-4 words both signs and 2^{63,64,127,128,129,192,256}+-2; (20%) text: decimal integers up to 2^198 with signs and "
+         "leading zeros, the type bounds +-1, a malformed stream, and the other spellings math/big accepts (0x, 0b, 0o, _, e-notation); "
+         "(20%) float64 bit patterns: 2^{0,52,53,63,64,65,127,128,129} and both neighbours, +-0, NaN, +-Inf, subnormal, fractions, random "
+         "53-bit significands with exponents -60..82, both signs. non-trivial = every case except malformed text; distinct = distinct case text",
+    trivial_class=r"(^bad$|^exn$)",
+    trusted_base=["math/big (SetString, String, Format, Bits), strconv and encoding/json are Go's; the harness compares the library's renderings with math/big's own",
+                  "float64(uint64) is modelled as round-to-nearest-even on integers (round53) and float decoding as (sign, 53-bit significand, exponent): tied by the comparison of exact integer values on every case",
+                  "text in the other spellings math/big accepts (base prefixes, underscores, exponent notation) is outside the model: only the oracle applies to it"],
+    assumptions=["64-bit big.Word (the 32-bit branches of FromBigInt are dead on this platform and not modelled)"],
+)
+
 # properties not (yet) claimed, with the reason; an entry is dropped automatically once the property is in PROPS
 NOT_APPLICABLE = {
     "C%02d" % i: "not yet built in this development (model and correspondence harness pending); see DESIGN.md section 22"
